@@ -133,3 +133,51 @@ Definition gstep (g : smg) (o : sm_op) : option smg :=
   end.
 Fixpoint grun (g : smg) (os : list sm_op) : option smg :=
   match os with [] => Some g | o :: tl => match gstep g o with Some g' => grun g' tl | None => None end end.
+
+(* ---------- deallocate's chunk search: find_chunk_impl(node) ---------- *)
+(* The chunk is looked for at the deallocation cursor, at the allocation cursor, and then in the half of the list on the
+   node's side of the deallocation cursor, walking inwards from both ends of that half.  base: address of the list object
+   (of the proxy chunk_base), which the half test compares with when the cursor is the proxy. *)
+Inductive fres := FFound (pos : nat) | FNotFound | FNoHalf | FOutOfFuel.
+
+Definition from_pos (l : smlist) (p : Z) (pos : nat) : bool :=
+  match pos with O => false | S i => match nth_error (sm_chunks l) i with Some c => c_from (sm_ns l) c p | None => false end end.
+
+Fixpoint walk_in (fuel : nat) (l : smlist) (p : Z) (first last : nat) : fres :=
+  match fuel with
+  | O => FOutOfFuel
+  | S k => if from_pos l p first then FFound first else if from_pos l p last then FFound last
+           else if Nat.eqb first last || Nat.eqb (ring_next l first) last then FNotFound
+           else walk_in k l p (ring_next l first) (ring_prev l last)
+  end.
+
+Definition pos_addr (base : Z) (l : smlist) (pos : nat) : Z :=
+  match pos with O => base | S i => match nth_error (sm_chunks l) i with Some c => c_mem c - sm_cmo | None => base end end.
+
+Definition sm_find_node (base : Z) (l : smlist) (p : Z) : fres :=
+  if from_pos l p (sm_dc l) then FFound (sm_dc l)
+  else if from_pos l p (sm_ac l) then FFound (sm_ac l)
+  else if pos_addr base l (sm_dc l) <? p then walk_in (ring_size l) l p (ring_next l (sm_dc l)) (ring_prev l 0)
+  else if p <? pos_addr base l (sm_dc l) then walk_in (ring_size l) l p (ring_next l 0) (ring_prev l (sm_dc l))
+  else FNoHalf.
+
+(* deallocate(mem) as the code runs it: the chunk search above, then the stride and double-release checks, then the push *)
+Inductive smres := MOk (l : smlist) | MReported | MAbort | MCrash | MHang.
+Definition sm_deallocate (base : Z) (ptr_check dbl : bool) (l : smlist) (p : Z) : smres :=
+  match sm_find_node base l p with
+  | FFound (S i) =>
+      match nth_error (sm_chunks l) i with
+      | Some c =>
+          let off := p - c_mem c in
+          if ptr_check && negb (off mod sm_ns l =? 0) then MReported
+          else if ptr_check && dbl && existsb (Z.eqb (off / sm_ns l)) (c_free c) then MReported
+          else MOk {| sm_ns := sm_ns l;
+                      sm_chunks := upd_chunk (sm_chunks l) i {| c_mem := c_mem c; c_nodes := c_nodes c; c_free := off / sm_ns l :: c_free c |};
+                      sm_ac := sm_ac l; sm_dc := S i |}
+      | None => MCrash
+      end
+  | FFound O => MCrash
+  | FNotFound => if ptr_check then MReported else MCrash   (* chunk == nullptr is dereferenced when the check is compiled out *)
+  | FNoHalf => MAbort                                        (* FOONATHAN_MEMORY_UNREACHABLE *)
+  | FOutOfFuel => MHang
+  end.
